@@ -386,7 +386,10 @@ theorem deregisterAllFrom_vframe : ∀ (ls : List Nat) (s : St), VFrame s (dereg
 theorem registerAllFrom_vframe : ∀ (ls : List Nat) (s : St), VFrame s (registerAllFrom s ls) := by
   intro ls; induction ls with
   | nil => intro s; exact VFrame.refl s
-  | cons l ls ih => intro s; simp only [registerAllFrom]; exact VFrame.trans (register_vframe s l) (ih _)
+  | cons l ls ih =>
+    intro s; simp only [registerAllFrom]
+    have h1 : VFrame s { s with lst := upd s.lst l { s.lst l with deadline := none } } := ⟨rfl, rfl⟩
+    exact VFrame.trans (VFrame.trans h1 (register_vframe _ l)) (ih _)
 theorem processTimeoutFrom_vframe (now : Nat) : ∀ (ls : List Nat) (s : St), VFrame s (processTimeoutFrom s now ls) := by
   intro ls; induction ls with
   | nil => intro s; exact VFrame.refl s
